@@ -225,6 +225,40 @@ def gcontract(rng, stream: str) -> dict:
     return {"stream": stream, "a": a, "g": g, "ins": ins, "outs": outs}
 
 
+def gsubset(rng) -> dict:
+    """an earlier term whose variables are a strict subset of a later term's, shared coefficients negated, constants equal or
+    negated: NOT an opposite pair (must not be folded)"""
+    c = gcontract(rng, "exact")
+    vs = c["ins"] + c["outs"]
+    if len(vs) >= 2:
+        x, y = rng.sample(vs, 2)
+        k = float(rng.randint(1, 9))
+        cx = float(rng.choice([1, 2, 3]))
+        first = {"c": {x: cx}, "k": k}
+        second = {"c": {x: -cx, y: float(rng.choice([-2, -1, 1, 2]))}, "k": rng.choice([k, -k])}
+        pos = rng.randint(0, len(c["g"]))
+        c["g"][pos:pos] = [first]
+        c["g"].insert(rng.randint(pos + 1, len(c["g"])), second)
+    return c
+
+
+def gsmall(rng) -> dict:
+    """sign-opposite pairs of SMALL numbers (1e-4 .. 1e-2) that differ within their first four significant digits but by less
+    than 1e-5 absolutely: they are different numbers (isclose has rtol 1e-5, atol 1e-8) and must not be folded"""
+    c = gcontract(rng, "exact")
+    vs = c["ins"] + c["outs"]
+    x = rng.choice(vs)
+    base = rng.choice([0.001234, 0.0005, 0.00321, 0.0042])
+    if rng.random() < 0.5:
+        pair = [{"c": {x: 1.0}, "k": base}, {"c": {x: -1.0}, "k": round(base + rng.choice([4e-6, 3e-6, 6e-6]), 7)}]
+    else:
+        pair = [{"c": {x: base}, "k": 1.0}, {"c": {x: -round(base + rng.choice([4e-6, 3e-6]), 7)}, "k": 1.0}]
+    pos = rng.randint(0, len(c["g"]))
+    c["g"][pos:pos] = pair[:1]
+    c["g"].insert(rng.randint(pos + 1, len(c["g"])), pair[1])
+    return c
+
+
 def gtiny(rng) -> dict:
     c = gcontract(rng, "float")
     c["stream"] = "tiny"
@@ -341,7 +375,7 @@ class C10(Check):
                    "a file reader's ValueError is accepted only when the written constraints are infeasible (the reader always simplifies)",
                    "meaning after the reader's simplification is LP-judged only when no two rows are nearly (but not exactly) parallel; a would-be violation is audited: if a HiGHS answer of that read is wrong per the certified exact LP the case is booked as an oracle failure (branch oracle-failure:*, counted as tie-divergent), not as a violation"]
     min_branches = {"fold:eq": 150, "fold:absle": 150, "fold:le": 800, "fold:abs0": 20, "sci": 200, "fixed": 800, "bare-name": 300,
-                    "file_m:ok": 600, "file_s:ok": 600, "stream:near": 80, "stream:exact": 300, "stream:float": 300,
+                    "file_m:ok": 600, "file_s:ok": 600, "stream:near": 50, "stream:exact": 300, "stream:float": 300,
                     "malformed:ValueError": 10, "malformed:IncompatibleArgsError": 10, "malformed:ValueError": 10,
                     "nonadjacent-fold": 60}
 
@@ -355,8 +389,12 @@ class C10(Check):
                 out.append(gcontract(rng, "exact"))
             elif r < 0.80:
                 out.append(gcontract(rng, "float"))
-            elif r < 0.90:
+            elif r < 0.86:
                 out.append(gcontract(rng, "near"))
+            elif r < 0.88:
+                out.append(gsubset(rng))
+            elif r < 0.90:
+                out.append(gsmall(rng))
             elif r < 0.95:
                 out.append(gtiny(rng))
             else:
